@@ -92,6 +92,54 @@ fn check_norm_relation(norm: &[Vec<f64>], counts: &[Vec<f64>]) -> Result<(), Str
     Ok(())
 }
 
+/// `min` output against kmer::minimiser::MinimiserGenerator applied to every record (window 0 = the whole record)
+fn min_against_core(recs: &[Rec], cmd: &Cmd, data: &[u8]) -> Result<(), String> {
+    use std::collections::BTreeMap;
+    let (w, m) = (cmd.w as usize, cmd.m as usize);
+    let per_rec: Vec<Vec<(String, usize, usize)>> = recs
+        .iter()
+        .map(|r| {
+            let weff = if w == 0 { r.seq.0.len().max(m) } else { w };
+            kmer::minimiser::MinimiserGenerator::new(&r.seq.0, weff, m).map(|(x, s, e)| (kmer::numeric_to_kmer(x, m), s, e)).collect()
+        })
+        .collect();
+    let lines = io::lines_strict(data)?;
+    if !cmd.m2s {
+        let mut got: Vec<(String, Vec<(String, usize, usize)>)> = Vec::new();
+        for l in &lines {
+            got.push(io::parse_s2m_line(l)?);
+        }
+        let mut want: Vec<(String, Vec<(String, usize, usize)>)> = recs.iter().zip(per_rec.iter()).map(|(r, x)| (r.id.clone(), x.clone())).collect();
+        got.sort();
+        want.sort();
+        if got != want {
+            let d = got.iter().zip(want.iter()).find(|(a, b)| a != b);
+            return Err(format!("s2m: {} lines, {} records; first differing pair after sorting: {:?}", got.len(), want.len(), d.map(|(a, b)| (crate::util::trunc(&format!("{:?}", a), 160), crate::util::trunc(&format!("{:?}", b), 160)))));
+        }
+    } else {
+        let mut got: BTreeMap<String, Vec<(String, usize, usize)>> = BTreeMap::new();
+        for l in &lines {
+            let (t, mut list) = io::parse_m2s_line(l)?;
+            list.sort();
+            got.insert(t, list);
+        }
+        let mut want: BTreeMap<String, Vec<(String, usize, usize)>> = BTreeMap::new();
+        for (r, runs) in recs.iter().zip(per_rec.iter()) {
+            for (t, s, e) in runs {
+                want.entry(t.clone()).or_default().push((r.id.clone(), *s, *e));
+            }
+        }
+        for l in want.values_mut() {
+            l.sort();
+        }
+        if got != want {
+            let d = want.iter().find(|(k, v)| got.get(*k) != Some(v));
+            return Err(format!("m2s: {} minimisers listed, the core iterator gives {}; first difference {:?} vs {:?}", got.len(), want.len(), d.map(|x| crate::util::trunc(&format!("{:?}", x), 160)), d.and_then(|(k, _)| got.get(k)).map(|x| crate::util::trunc(&format!("{:?}", x), 160))));
+        }
+    }
+    Ok(())
+}
+
 pub fn check_case(c0: &Case) -> Verdict {
     let mut v = Verdict::new();
     // replicate the records
@@ -201,6 +249,12 @@ pub fn check_case(c0: &Case) -> Verdict {
         Rel::Library => {
             if let Err(e) = same_results(a, &ra, &rb) {
                 v.fail("cli-differs-from-library", format!("{}: {}", what, e));
+            } else if a.sub == Sub::Min {
+                // the listing functions sit between the command line and the core iterator: the command's result
+                // must also be what the core minimiser iterator yields record by record
+                if let Err(e) = min_against_core(&c.recs, a, &da) {
+                    v.fail("cli-differs-from-core-iterator", format!("{:?}: {}", a.args("IN", Some("ALT"), "OUT"), e));
+                }
             }
         }
         Rel::Threads(_) | Rel::Stdin | Rel::PyEntry => {
